@@ -6,7 +6,8 @@
 From Godi Require Import Base GDfs.
 
 (* ------------------------------------------------------------------ descriptors *)
-Record desc := mkDesc { ds_ty : ty; ds_key : key; ds_grp : grp; ds_reg : reg; ds_out : nat }.
+Record desc := mkDesc { ds_ty : ty; ds_key : key; ds_grp : grp; ds_reg : reg; ds_out : nat;
+                        ds_call : nat (* number of the registration call that created it *) }.
 Definition ds_ident (d : desc) : ident := (ds_ty d, ds_key d, ds_grp d).
 Definition ds_life (d : desc) : lifetime := r_life (ds_reg d).
 Definition ds_rid (d : desc) : nat := r_id (ds_reg d).
@@ -32,7 +33,7 @@ Definition register (c : coll) (d : desc) : coll + eclass :=
   match ds_key d with
   | KNone =>
       if ds_grp d =? 0 then services_branch
-      else inl (c ++ [mkDesc (ds_ty d) (KIdx (S (length (group_members c (ds_ty d) (ds_grp d))))) (ds_grp d) (ds_reg d) (ds_out d)])
+      else inl (c ++ [mkDesc (ds_ty d) (KIdx (S (length (group_members c (ds_ty d) (ds_grp d))))) (ds_grp d) (ds_reg d) (ds_out d) (ds_call d)])
   | _ => services_branch
   end.
 
@@ -51,15 +52,15 @@ Definition add_steps (r : reg) (voidn : nat) : list (desc + eclass) :=
   let base_key := match r_name r with 0 => (if is_void r then KVoid voidn else KNone) | n => KName n end in
   match r_form r with
   | FResult _ _ fs _ =>
-      map (fun '(i, f) => inl (mkDesc (f_ty f) (name_key (f_name f)) (f_group f) r i)) (combine (seq 0 (length fs)) fs)
+      map (fun '(i, f) => inl (mkDesc (f_ty f) (name_key (f_name f)) (f_group f) r i voidn)) (combine (seq 0 (length fs)) fs)
   | FCtor _ _ (t0 :: t1 :: ts) _ =>
-      map (fun '(i, t) => inl (mkDesc t (match i with 0 => name_key (r_name r) | _ => KNone end) (r_group r) r i))
+      map (fun '(i, t) => inl (mkDesc t (match i with 0 => name_key (r_name r) | _ => KNone end) (r_group r) r i voidn))
           (combine (seq 0 (length (t0 :: t1 :: ts))) (t0 :: t1 :: ts))
   | f =>
       match r_as r with
-      | [] => [inl (mkDesc (form_type f) base_key (r_group r) r 0)]
+      | [] => [inl (mkDesc (form_type f) base_key (r_group r) r 0 voidn)]
       | ifs => map (fun i => if implements (form_type f) i
-                             then inl (mkDesc i base_key (r_group r) r 0)
+                             then inl (mkDesc i base_key (r_group r) r 0 voidn)
                              else inr ETypeMismatch) ifs
       end
   end.
@@ -76,7 +77,7 @@ Fixpoint run_steps (c : coll) (steps : list (desc + eclass)) : coll + eclass :=
 Definition add_service (c : coll) (voidn : nat) (r : reg) : coll * nat * option eclass :=
   if (r_bad r =? 1) || (r_bad r =? 6) then (c, voidn, Some EValidation) else
   if (negb (r_name r =? 0) && negb (r_group r =? 0)) || negb (r_bad r =? 0) then (c, voidn, Some EValidation) else
-  let voidn' := if is_void r then S voidn else voidn in
+  let voidn' := S voidn in     (* the counter numbers every registration call (void keys only need uniqueness) *)
   if is_void r && negb (r_group r =? 0) then (c, voidn', Some EValidation) else
   if is_reserved (form_type (r_form r)) then (c, voidn', Some EValidation) else
   match run_steps c (add_steps r voidn') with
@@ -277,7 +278,7 @@ Definition share_instance (p : prov) (h : nat) (d : desc) (i : inst) : prov :=
   | Transient => p
   end.
 Definition aliases_of (c : coll) (d : desc) : list desc :=
-  filter (fun d' => (ds_rid d' =? ds_rid d) && negb (ident_eqb (ds_ident d') (ds_ident d))) c.
+  filter (fun d' => (ds_rid d' =? ds_rid d) && (ds_call d' =? ds_call d) && negb (ident_eqb (ds_ident d') (ds_ident d))) c.
 
 Definition has_err (r : reg) : bool :=
   match r_form r with FInst _ => false | FCtor _ _ _ e | FResult _ _ _ e => e end.
@@ -287,8 +288,11 @@ Definition effective_outcome (r : reg) (inv : nat) : outcome :=
   match nth_default OOk (r_script r) inv with
   | OErr => if has_err r then OErr else OOk
   | ONil => if single_iface_ret r then ONil else OOk
+  | OCancelBuild => OOk
   | o => o
   end.
+Definition cancels (r : reg) (inv : nat) : bool :=
+  match nth_default OOk (r_script r) inv with OCancelBuild => true | _ => false end.
 Definition out_inst (r : reg) (inv k : nat) : inst := IObj (r_id r) inv k (nth_default 0 (r_dyn r) k).
 
 Definition builtin (h : nat) (t : ty) : option aval :=
@@ -366,11 +370,13 @@ Section Resolve.
         | (rs1, inl args) =>
             let inv := get_inv (rs_invs rs1) (r_id r) in
             let o := effective_outcome r inv in
-            let rs2 := log (mkRs (bump_inv (rs_invs rs1) (r_id r)) (rs_p rs1) (rs_ev rs1)) (EvCtor (r_id r) inv args o) in
+            let rs2' := log (mkRs (bump_inv (rs_invs rs1) (r_id r)) (rs_p rs1) (rs_ev rs1)) (EvCtor (r_id r) inv args o) in
+            let rs2 := if cancels r inv then log rs2' EvCancel else rs2' in
             match o with
             | OErr => (rs2, RFail (ECtorErr (r_id r)))
             | OPanic => (rs2, RFail (ECtorPanic (r_id r)))
             | ONil => (rs2, RFail EValidation)
+            | OCancelBuild => (rs2, RFail EOther)
             | OOk =>
                 match r_form r with
                 | FCtor _ _ [] _ => (with_p rs2 (set_instance (rs_p rs2) h d IVoid), ROkV (AInst IVoid))
@@ -512,23 +518,51 @@ Fixpoint run_inits (rs : rstate) (h : nat) (ds : list desc) : rstate * option rr
 Definition singleton_pending (p : prov) (d : desc) : bool :=
   life_eqb (ds_life d) Singleton &&
   match lookup_i (p_single p) (ds_ident d) with Some _ => false | None => true end.
+(* the Build context is checked before each singleton is created *)
+Definition build_cancelled (rs : rstate) : bool :=
+  existsb (fun e => match e with EvCancel => true | _ => false end) (rs_ev rs).
 Fixpoint create_singletons (rs : rstate) (ds : list desc) : rstate * option rres :=
   match ds with
   | [] => (rs, None)
   | d :: ds' =>
       if singleton_pending (rs_p rs) d
-      then match create_top rs 0 d with
+      then if build_cancelled rs then (rs, Some (RFail ECancelled)) else
+           match create_top rs 0 d with
            | (rs1, ROkV _) => create_singletons rs1 ds'
            | (rs1, r) => (rs1, Some r)
            end
       else create_singletons rs ds'
   end.
-(* instance values have no constructor and no dependencies: those the oracle does not place
-   (their position is unobservable unless they are disposable) come first *)
-Definition is_inst_desc (d : desc) : bool := match r_form (ds_reg d) with FInst _ => true | _ => false end.
-Definition singleton_order (c : coll) (ord : list nat) : list desc :=
-  filter (fun d => is_inst_desc d && negb (mem_nat (ds_rid d) ord)) c ++
-  flat_map (fun rid => filter (fun d => ds_rid d =? rid) c) ord ++ c.
+(* instance values have no constructor and no dependencies: the non-disposable ones the oracle does not
+   place (their position is unobservable) come first; a disposable one is placed by the oracle whenever it
+   was created, so an unplaced one was not reached before a failure *)
+Definition is_inst_desc (d : desc) : bool := match r_form (ds_reg d) with FInst t => negb (disposable t) | _ => false end.
+Definition unplaced_instances (c : coll) (ord : list nat) : list desc :=
+  filter (fun d => is_inst_desc d && negb (mem_nat (ds_rid d) ord)) c.
+(* the oracle: each entry constructs the first still-missing singleton descriptor of that registration *)
+Fixpoint create_by_order (rs : rstate) (c : coll) (ord : list nat) : rstate * option rres :=
+  match ord with
+  | [] => (rs, None)
+  | rid :: ord' =>
+      match find (fun d => (ds_rid d =? rid) && singleton_pending (rs_p rs) d) c with
+      | None => create_by_order rs c ord'
+      | Some d =>
+          if build_cancelled rs then (rs, Some (RFail ECancelled)) else
+          match create_top rs 0 d with
+          | (rs1, ROkV _) => create_by_order rs1 c ord'
+          | (rs1, r) => (rs1, Some r)
+          end
+      end
+  end.
+Definition create_all_singletons (rs : rstate) (c : coll) (ord : list nat) : rstate * option rres :=
+  match create_singletons rs (unplaced_instances c ord) with
+  | (rs1, Some r) => (rs1, Some r)
+  | (rs1, None) =>
+      match create_by_order rs1 c ord with
+      | (rs2, Some r) => (rs2, Some r)
+      | (rs2, None) => create_singletons rs2 c
+      end
+  end.
 
 Definition rres_class (r : rres) : eclass :=
   match r with RFail e => e | RFuel => EOther | ROkV _ => EOther end.
@@ -546,7 +580,7 @@ Definition build (c : coll) (invs : list (nat * nat)) (ord : list nat)
   let fail (rs : rstate) (r : rres) :=
       let '(_, evs, n) := close_provider [] (rs_p rs) in
       (rs_invs rs, events_of rs ++ evs, inr (if n =? 0 then rres_class r else EDisposal n)) in
-  match create_singletons rs0 (singleton_order c ord) with
+  match create_all_singletons rs0 c ord with
   | (rs1, Some r) => fail rs1 r
   | (rs1, None) =>
       match run_inits rs1 0 (filter is_initializer c) with
@@ -688,6 +722,14 @@ Definition step (w : world) (o : op) : world * list event * result :=
   | OCtxValue p h => (w, [], RCount (sc_ctx (get_scope (get_prov w p) h)))
   | OCtxDone p h => (w, [], RBool (ctx_done w (get_prov w p) h))
   | OFromContext p h => (w, [], RScope h)
+  | OStats p =>
+      let pv := get_prov w p in
+      (w, [], RStats (if p_open pv then length (open_scopes pv) else 999)
+                     (map (fun h => let s := get_scope pv h in
+                                    if sc_open s
+                                    then ((if h =? 0 then 0 else length (open_children pv h)), length (sc_cache s), length (sc_disp s))
+                                    else (999, 999, 0))
+                          (seq 0 (length (p_scopes pv)))))
   end.
 
 Definition trace := list (list event * result).
